@@ -104,14 +104,14 @@ func init() {
 		},
 		{
 			ID:          "C05",
-			Rules:       []RuleUse{use("R-KEYS", "v5"), use("R-ABSENT", "v5"), use("R-MAPORDER", "v5"), use("R-KEYORDER", "codec"), use("R-NUM", "v5", "codec"), {Rule: "R-POOLINIT", Bodies: []string{"codec"}, KeyHas: []string{"useNumber"}}},
+			Rules:       []RuleUse{use("R-KEYS", "v5"), use("R-ABSENT", "v5"), use("R-MAPORDER", "v5"), use("R-KEYORDER", "codec"), use("R-NUM", "v5", "codec"), {Rule: "R-POOLINIT", Bodies: []string{"codec"}, KeyHas: []string{"useNumber"}}, {Rule: "R-POOL", Bodies: []string{"v5", "codec"}, KeyHas: []string{"MarshalEscaped", "Marshal"}}, use("R-COPYISO", "v5")},
 			Explanation: "Decided for the v5 body and the codec: R-KEYS (the ordered-object invariant: every insert into obj is paired with a membership-scan-guarded append of the same key to keys and vice versa, every delete with the removal of the scanned slot and vice versa, whole-map stores with a keys store, the decoder fill with its own key list; a replaced member keeps its slot — no remove followed by re-creation of the same key; no loop over keys rewrites keys; the emitter ranges over keys and emits obj[k], never ranging over the map; inserts happen under obj != nil), R-ABSENT (membership in the member map is only ever decided by comma-ok or by the keys list, never by comparing the looked-up value with nil — a null member is a member), R-KEYORDER (the decoder records each key once per member, unconditionally, before the value, in a call-local list published once), R-NUM (number literals are never parsed, converted or reformatted: convertNumber returns the literal, the encoder writes it back, unparsed nodes re-emit raw bytes, Numbers are compared only by literal equality), R-POOLINIT (useNumber is forced in every decoder entry point), R-MAPORDER (no order-sensitive effect under a map range on the Apply/CreateMergePatch/Equal paths).",
 			NotDecided:  "byte-exact fidelity of every literal through compact beyond the escaping substitutions; string value preservation through unquote/quote (C17's domain); the order in which MergePatch appends several new members (map iteration order, allowed by the property as worded).",
 			Trusted:     commonTrusted, Assumptions: commonAssumptions,
 		},
 		{
 			ID:          "C06",
-			Rules:       []RuleUse{{Rule: "R-GATE", Bodies: []string{"v5", "codec"}, KeyHas: []string{"Equal", "sink "}}, {Rule: "R-NIL", Bodies: []string{"v5"}, KeyHas: []string{"Equal", ".equal", "tryDoc", "tryAry", "compact", "isNull", "nextByte"}}, {Rule: "R-TYPESTATE", Bodies: []string{"v5"}, KeyHas: []string{".equal", "tryDoc", "tryAry"}}, {Rule: "R-RAW", Bodies: []string{"v5"}, KeyHas: []string{"compact", "tryDoc", "tryAry", "nextByte", "newLazyNode"}}, {Rule: "R-STALERAW", Bodies: []string{"v5"}, KeyHas: []string{".equal", "isNull", "compact", "tryDoc", "tryAry"}}, {Rule: "R-NUM", Bodies: []string{"v5"}, KeyHas: []string{"never parsed"}}, {Rule: "R-MAPORDER", Bodies: []string{"v5"}, KeyHas: []string{".equal"}}, {Rule: "R-ABSENT", Bodies: []string{"v5"}, KeyHas: []string{".equal"}}, use("R-EQSHAPE", "v5"), {Rule: "R-NULLSPELL", Bodies: []string{"v5"}, KeyHas: []string{".equal"}}, {Rule: "R-ROOTDISPATCH", Bodies: []string{"v5"}, KeyHas: []string{"untrimmed text", "Equal"}}},
+			Rules:       []RuleUse{{Rule: "R-GATE", Bodies: []string{"v5", "codec"}, KeyHas: []string{"Equal", "sink "}}, {Rule: "R-NIL", Bodies: []string{"v5"}, KeyHas: []string{"Equal", ".equal", "tryDoc", "tryAry", "compact", "isNull", "nextByte"}}, {Rule: "R-TYPESTATE", Bodies: []string{"v5"}, KeyHas: []string{".equal", "tryDoc", "tryAry"}}, {Rule: "R-RAW", Bodies: []string{"v5"}, KeyHas: []string{"compact", "tryDoc", "tryAry", "nextByte", "newLazyNode"}}, {Rule: "R-STALERAW", Bodies: []string{"v5"}, KeyHas: []string{".equal", "isNull", "compact", "tryDoc", "tryAry"}}, {Rule: "R-NUM", Bodies: []string{"v5"}, KeyHas: []string{"never parsed"}}, {Rule: "R-MAPORDER", Bodies: []string{"v5"}, KeyHas: []string{".equal"}}, {Rule: "R-ABSENT", Bodies: []string{"v5"}, KeyHas: []string{".equal"}}, use("R-EQSHAPE", "v5"), {Rule: "R-NULLSPELL", Bodies: []string{"v5"}, KeyHas: []string{".equal"}}, {Rule: "R-ROOTDISPATCH", Bodies: []string{"v5"}, KeyHas: []string{"untrimmed text", "Equal"}}, {Rule: "R-DRIVER", Bodies: []string{"codec"}, KeyHas: []string{"Valid", "checkValid", "eof"}}},
 			Explanation: "Decided for the v5 body: R-EQSHAPE (the recursive comparison itself: every branch tests the two operands only, so no verdict depends on a counter, option or other state; strings are compared after being unescaped by the codec's own decoder, each side from its own compacted text; every computed verdict uses both operands and the scalar comparison is bytes.Equal of the two compacted texts; the recursion pairs element i with element i and member k with member k under a preceding length/size comparison that answers false, answers false whenever the recursion does, and runs over all elements/members), R-NULLSPELL (no verdict from the nil-ness of member nodes: a stored null equals a decoded null), R-ROOTDISPATCH (no function classifies a node by a fixed-offset byte of its raw text — the operands of Equal are nodes built over the caller's bytes, leading whitespace included), R-GATE on both parameters of Equal with the invalid edge returning false, R-NIL + R-TYPESTATE + R-RAW + R-STALERAW over Equal, (*lazyNode).equal, tryDoc, tryAry, compact, isNull (Equal is total: null roots, nulls inside arrays and as members, an array against null never dereference a nil node; comparison never re-reads stale bytes of a parsed node), R-NUM (no numeric parsing anywhere in the library: numbers are compared as literals, so distinct literals are never equal), R-MAPORDER (the member loop of equal has no order-sensitive effect), R-ABSENT (the member comparison looks the other side up with comma-ok and tests the flag: a null member is never equal to an absent one).",
 			NotDecided:  "reflexivity/symmetry/transitivity and agreement with an independent deep comparison as value-level statements (R-EQSHAPE decides the pairing, coverage and provenance of the verdicts, not the contents of the byte slices); that the codec's decoder unescapes strings per RFC 8259 is decided separately (C17/C18 rules) and assumed here.",
 			Trusted:     commonTrusted, Assumptions: commonAssumptions,
@@ -125,14 +125,14 @@ func init() {
 		},
 		{
 			ID:          "C08",
-			Rules:       []RuleUse{use("R-RETSHAPE", "v5"), use("R-ERRCHAIN", "v5"), {Rule: "R-COPYLIMIT", Bodies: []string{"v5"}, KeyHas: []string{"(iii)", "(iv)"}}, use("R-SUCCESS", "v5"), {Rule: "R-DISPATCH", Bodies: []string{"v5"}, KeyHas: []string{"operation order"}}},
+			Rules:       []RuleUse{use("R-RETSHAPE", "v5"), use("R-ERRCHAIN", "v5"), {Rule: "R-COPYLIMIT", Bodies: []string{"v5"}, KeyHas: []string{"(i)", "(iii)", "(iv)", "(vi)"}}, use("R-SUCCESS", "v5"), {Rule: "R-DISPATCH", Bodies: []string{"v5"}, KeyHas: []string{"operation order"}}},
 			Explanation: "Decided for the v5 body: R-DISPATCH operation order (the apply function reports errors from the dispatch loop only: no other loop over the operations — a pre-scan or validation pass — leaves into an error return, so the first operation that cannot be applied decides the outcome), R-RETSHAPE (every return of the Apply family and of the functions whose result tuples they pass through has a nil document or a nil error; in the operation loop every handler's error is tested before the back edge and the non-nil edge returns (nil, that error), so no later operation runs after the first failure), R-ERRCHAIN (error identity over every error return of the six handlers and the two containers: ErrTestFailed is produced only by the test handler, by each of its comparison-verdict returns and by none of its lookup-failure returns; a test against an absent member reaches the comparison; an unreachable parent yields ErrMissing in all six handlers; an absent member yields ErrMissing in partialDoc.get/remove and every handler wraps (%w) the container's error or ErrMissing; *AccumulatedCopySizeError comes only from its constructor, called only by the copy handler), R-COPYLIMIT (iii,iv) (that error is returned exactly on the over-limit edge). R-SUCCESS (a handler returns nil only after its container effect — add/set/remove, the root replacement, the comparison for test — or through the AllowMissingPathOnRemove skip: an inapplicable operation cannot be silently accepted, so the first failing operation really ends the patch).",
 			NotDecided:  "that a patch whose operations all succeed never errors (the final marshal could fail); the 'exactly when' direction for ErrMissing beyond the 'holds when' clauses the property states.",
 			Trusted:     commonTrusted, Assumptions: commonAssumptions,
 		},
 		{
 			ID:          "C09",
-			Rules:       []RuleUse{use("R-EFFECT"), use("R-GLOBALS"), use("R-POOL"), use("R-POOLINIT"), {Rule: "R-KEYS", Bodies: []string{"v5"}, KeyHas: []string{"whole-map", "obj != nil", "decoder fill", "whole-list"}}, use("R-MAPORDER")},
+			Rules:       []RuleUse{use("R-EFFECT"), use("R-GLOBALS"), use("R-POOL"), use("R-POOLINIT"), {Rule: "R-KEYS", Bodies: []string{"v5"}, KeyHas: []string{"whole-map", "obj != nil", "decoder fill", "whole-list"}}, use("R-MAPORDER"), use("R-KEYORDER", "codec")},
 			Explanation: "Decided for the v5 library, the embedded codec and the legacy library: R-EFFECT (a census of every store / copy / append / map update / delete / writing std call whose target memory has a type the caller can share with the library — byte slices and RawMessage contents and headers, Operation, Patch, ApplyOptions: the root of each is freshly allocated in the call, or it is a parameter and becomes a summary pushed to all call sites; no exported function ends up writing through a parameter; decoder targets are fresh or call-local; working types are never published into globals or into a Patch), R-GLOBALS (every package-level variable is immutable after init, a sync.Pool/sync.Map used only through its methods, or configuration that library code only reads), R-POOL (pooled decoder/encoder/scanner states are not used after Put, not retained, and no result aliases them — Marshal returns a copy), R-POOLINIT (no field of a recycled state can be read before it is rewritten, except reviewed idioms with their own structural checks; useNumber is forced in every entry point): R-KEYS (the one recycled field that can be stale, lastKeys, is only ever consumed together with a non-nil freshly decoded member map: obj is never replaced or filled without keys being stored alongside, and merge code touches keys only under obj != nil), R-MAPORDER (identical bytes for Apply/CreateMergePatch/Equal do not depend on map iteration order): together, nothing written by one call is visible to a later one and nothing a call reads was left by an earlier one.",
 			NotDecided:  "full functional determinism of the inherited codec (its type caches are trusted to be semantically transparent);",
 			Trusted:     commonTrusted, Assumptions: commonAssumptions,
